@@ -392,7 +392,7 @@ func init() {
 	fw.Register(&fw.Prop{
 		ID:    "C18",
 		Level: "model_checking",
-		Rule:  "explicit-state breadth-first search per data type (string, hash, list, set, sorted set) over programs of concrete commands on keys {k1,k2}, fields/members {a,b}, values {x, empty, y CRLF z, 5}, scores {1,2}, increments ±1, indices {0,-1,1}, pop counts {none,2}, sorted-set reads by index (full and partial ranges), by score, with REV / BYSCORE / LIMIT / WITHSCORES and the ZREV* forms, ZADD with NX/XX/GT/LT/CH/INCR, plus DEL/EXISTS/RENAME/RENAMENX (onto absent, existing and identical keys)/TYPE/KEYS for every type. A state is (Redis-model state, full read-out of the example server); each successor is obtained by replaying the program on a fresh real example server plus one command; states are de-duplicated per (type, first command) unit; search to depth 4 (thorough 7, or closure where it closes); all units advance level by level, so a run cut by the deadline is still complete up to the last level whose level_<d>_units_done counter equals units. Range replies are judged up to the order among members of equal score. Every reply and the read-out are compared with the model under the conventions of DESIGN.md appendix C.",
+		Rule:  "explicit-state breadth-first search per data type (string, hash, list, set, sorted set) over programs of concrete commands on keys {k1,k2}, fields/members {a,b}, values {x, empty, y CRLF z, 5}, scores {1,2}, increments ±1, indices {0,-1,1}, pop counts {none,2}, sorted-set reads by index (full and partial ranges), by score, with REV / BYSCORE / LIMIT / WITHSCORES and the ZREV* forms, ZADD with NX/XX/GT/LT/CH/INCR, plus DEL/EXISTS/RENAME/RENAMENX (onto absent, existing and identical keys)/TYPE/KEYS for every type. A state is (Redis-model state, full read-out of the example server); each successor is obtained by replaying the program on a fresh real example server plus one command; states are de-duplicated per (type, first command) unit; search to depth 4 (thorough 7, or closure where it closes); all units advance level by level, so a run cut by the deadline is still complete up to the last level whose level_<d>_units_done counter equals units. Range replies are judged up to the order among members of equal score. Every reply and the read-out are compared with the model under the conventions of DESIGN.md appendix C. Index part: LINDEX with every index -6..6 and LRANGE / ZRANGE (also REV) / ZREVRANGE WITHSCORES / GETRANGE with every index pair from -6..6 against lists, sorted sets and strings of length 0..4.",
 		Assumptions: []string{
 			"each key is used with one data type, no expiry",
 			"replies whose order Redis leaves unspecified are compared as multisets; members of equal score as sets; $-1 and *-1 both count as 'nothing'",
